@@ -59,6 +59,8 @@ def one(kind, name, checks, edits):
                 detail[c] = [l.strip()[:220] for l in p.stdout.split("\n") if l.startswith("  rule")][:2]
         if kind == "mutant":
             verdict = "ok" if set(fired) == set(checks) else "MISSED by %s" % sorted(set(checks) - set(fired))
+        elif name in getattr(catalogue, "LIMITATIONS", {}):
+            verdict = "ok (silent; listed as a limitation - the list can be shortened)" if not fired else "ok-LIMITATION alarm from %s as documented: %s" % (fired, catalogue.LIMITATIONS[name][:80])
         else:
             verdict = "ok" if not fired else "FALSE ALARM from %s" % fired
         return (kind, name, verdict + (" " + suite if suite else ""), detail)
